@@ -528,7 +528,7 @@ def S_C15f():
     except ValueError:
         pass
     v[0] = 99
-    return bool(v._data is not p._data or np.asarray(p[1])[0, 0] != 99)
+    return bool(not np.shares_memory(np.asarray(v[0]), np.asarray(p[1])) or np.asarray(p[1])[0, 0] != 99)
 
 
 def S_C15g():
@@ -572,7 +572,8 @@ def S_C15j():
     except ValueError:
         pass
     s.append(np.full((1, 2), 4.))
-    return [float(np.asarray(x)[0, 0]) for x in s] != [1., 3., 4.] or s._build_cache is not None
+    return ([float(np.asarray(x)[0, 0]) for x in s] != [1., 3., 4.]
+            or getattr(s, '_build_cache', None) is not None)
 
 
 def S_C15k():
